@@ -283,6 +283,12 @@ def dstepCore (st : DState) (line : String) : DState × Option String :=
       let must := mine.all (fun e => decide (e.2.slot < slot)) && decide (slot < two63)
       (st, some (if must && state != "S" then "REFUSED-ADVANCING" else "ok"))
     | _, _ => bad st line
+  -- judge C11 (legacy records): the export of a key must state exactly the values its old-format
+  -- records hold
+  | ["jlegacy", a, b, c, x, y, z] =>
+    match parseProt a b c, parseProt x y z with
+    | some got, some want => (st, some (if got == want then "ok" else "LEGACY-RECORD-NOT-HONOURED"))
+    | _, _ => bad st line
   -- judge C11: the export states, for key k, exactly the highest released slot / source / target
   | ["jexport", k, a, b, c] =>
     match unhex k, parseProt a b c with
@@ -334,6 +340,10 @@ def dstepCore (st : DState) (line : String) : DState × Option String :=
       let ok := if kind == "att" then decide (prefix4 d = domAttester) else decide (prefix4 d = domProposer)
       (st, some (if ok then "ok" else "WRONG-ENDPOINT"))
     | none => bad st line
+  -- judge C06: a step on the path of this position failed (injected fault / undecodable record):
+  -- the position must not carry a signature
+  | ["jfault", hasSig] =>
+    (st, some (if hasSig == "1" then "SIGNED-DESPITE-FAULT" else "ok"))
   -- judge C06: the fail-closed biconditional on one observed response position
   | ["jiff", state, hasSig] =>
     let p : Pos := { res := if state == "S" then .succeeded else if state == "D" then .denied
